@@ -55,3 +55,8 @@ func init() {
 	prop("C07", "C07-R1", "C04-R5")
 	prop("C11", "C11-R2", "C06-R1")
 }
+
+func init() {
+	prop("C03", "C03-R1", "C03-R2", "C03-R3", "C02-R3")
+	prop("C12", "C12-R1", "C12-R2", "C12-R3")
+}
